@@ -62,7 +62,7 @@ package propeller
 // each hashed in the form the unit validator verifies; the shard and proof handed back for
 // re-broadcast are the local index's.
 //@   assigns recovered, builtTree, calls_RecoverData, calls_MerkleNew, arg_RecoverData_shards, arg_RecoverData_numDataShards, arg_RecoverData_parity, arg_MerkleNew_leaves
-//@   callsite merkle.New@*: over_all_recovered_shards: calls_RecoverData == old(calls_RecoverData) + 1 && len($0) == len(recovered) && (forall i int :: 0 <= i && i < len(recovered) ==> $0[i] == protoLeaf(recovered[i]))
+//@   callsite merkle.New@*: over_all_recovered_shards: calls_RecoverData == old(calls_RecoverData) + 1 && leavesOf($0, recovered)
 //@   ensures local_unit: result3 == nil ==> result1[0] == recovered[int(localShardIndex)] && result2 == builtTree[int(localShardIndex)]
 
 
@@ -74,12 +74,18 @@ package propeller
 //@ func (ShardData).MarshalProto
 //@   trusted
 //@   ensures len(sd) == 1 ==> result == protoLeaf(sd[0])
+// leavesOf(l, s): l holds, position by position, the leaf of every shard in s. Hidden: callers pass
+// it on as a token from merkleLeaves to merkle.New (their own obligations stay quantifier-free,
+// so that a wrong field in them is refuted with a model instead of timing out).
+//@ pure hidden func leavesOf(l [][]byte, s [][]byte) bool = len(l) == len(s) && (forall j int :: 0 <= j && j < len(s) ==> l[j] == protoLeaf(s[j]))
 //@ func merkleLeaves
 //@   props C19
 //@   arith int
 //@   loop 1: invariant idx: -1 <= rangeindex && rangeindex < len(shards) && len(leaves) == len(shards)
 //@   loop 1: invariant sofar: forall j int :: 0 <= j && j <= rangeindex ==> leaves[j] == protoLeaf(shards[j])
-//@   ensures every_leaf: len(result) == len(shards) && (forall j int :: 0 <= j && j < len(shards) ==> result[j] == protoLeaf(shards[j]))
+//@   reveal leavesOf
+//@   ensures every_leaf: leavesOf(result, shards)
+//@   ensures as_many: len(result) == len(shards)
 
 // ---- the publisher's units -----------------------------------------------------------------------
 //@ ghost var encoded [][]byte
@@ -100,7 +106,7 @@ package propeller
 //@   requires numDataShards >= 1 && numDataShards < 1<<20 && parity >= 0 && parity < 1<<20 && len(message) < 1<<40 && committeeID != nil
 //@   modifies *
 //@   assigns encoded, builtTree, calls_EncodeData, calls_MerkleNew, calls_SignMessage, arg_EncodeData_data, arg_EncodeData_numDataShards, arg_EncodeData_parity, arg_MerkleNew_leaves, arg_SignMessage_privKey, arg_SignMessage_root, arg_SignMessage_committeeID, arg_SignMessage_nonce
-//@   callsite merkle.New@*: over_all_encoded_shards: len($0) == len(encoded) && (forall i int :: 0 <= i && i < len(encoded) ==> $0[i] == protoLeaf(encoded[i]))
+//@   callsite merkle.New@*: over_all_encoded_shards: leavesOf($0, encoded)
 //@   callsite SignMessage@*: signs_what_the_units_say: $2 == committeeID && $3 == nonce
 //@   loop 1: invariant idx: -1 <= rangeindex && rangeindex < len(encodedMessage) && len(units) == len(encodedMessage) && encodedMessage == encoded
 // What each unit carries is established for the unit just written, quantifier-free, so that a
